@@ -183,14 +183,14 @@ PROPS = {
         ]
 },
     "C03": {
-        "claim": "Safety clauses (nothing is consumed by a rule whose pattern or source prefix it does not match; an uninterpretable DISALLOW fails; DISALLOW fails iff a queued artifact matches) are Lean theorems for all rule lists and artifact sets; equality of the code's verdict with the specification's algorithm (Spec/Rules.lean) is checked on the implementation over a systematic single-rule scope and random rule lists; glob and path-clean are specification-level models compared with the libraries.",
-        "level_note": "Trusted: Lean kernel; Spec/Rules.lean is my transcription of the in-toto v0.9 rule algorithm; glob 0.3.4 and path-clean 1.0.1 behaviour are library specs validated differentially; model = spec on normalized inputs is sampled until the refinement theorem lands.",
+        "claim": "Refinement theorem: for every item, rule list and link table with normalized relative paths and portable prefixes, the code-shaped engine accepts exactly when the specification's algorithm (Spec/Rules.lean) accepts; plus the safety clauses without hypotheses (nothing is consumed by a rule whose pattern or source prefix it does not match; an uninterpretable DISALLOW fails; DISALLOW fails iff a queued artifact matches). The model is tied to rulelib.rs by a systematic single-rule scope and random rule lists through the hooked apply_rules_on_link, with the specification verdict as oracle; glob and path-clean are specification-level models compared with the libraries.",
+        "level_note": "Trusted: Lean kernel; Spec/Rules.lean is my transcription of the in-toto v0.9 rule algorithm; glob 0.3.4 and path-clean 1.0.1 behaviour are library specs validated differentially; the refinement theorem is relative to these library models.",
         "technique": 'Lean 4 theorems about an executable model + model/implementation correspondence check (differential run with property oracle)',
         "rule": "ops = rules(item, link table) through the hooked apply_rules_on_link, glob(pattern, text) and clean(path) against the libraries; oracle = the Lean specification verdict (rulespec) on normalized scenarios; distinct = distinct op; non-trivial = the item has rules and its link exists (gets past the lookup guard)",
         "exhaustive_note": "systematic scope in generator_notes: every single rule of the alphabet followed by DISALLOW *, over all artifact-universe subsets listed",
         "trusted_base": ["glob::Pattern (0.3.4, MatchOptions::new()) and path_clean::clean (1.0.1): modelled at specification level in Model/Glob.lean, Model/PathClean.lean and compared with the libraries on generated inputs",
                          "PathBuf::push / str::strip_prefix: modelled on text"],
-        "partial": ["model verdict = specification verdict (c03_refines_spec) is not yet a theorem: it is checked by the oracle on every normalized scenario of the run"],
+        "partial": ["glob::Pattern and path_clean::clean are library models (differential), so the refinement is relative to them"],
         "assumptions": COMMON_ASSUME + ["the statement speaks about normalized relative paths and portable glob syntax; outside that only model = implementation and no-panic are checked"],
     },
     "C04": {
